@@ -3,7 +3,7 @@
 sd=$1; prop=$2; shift 2
 cd /repo || exit 9
 if ! git diff --quiet; then echo "/repo has uncommitted changes"; exit 9; fi
-git apply "$sd/patch.diff" || { echo "patch does not apply"; exit 9; }
+git apply "$( [ -f "$sd/patch.rebased.diff" ] && echo "$sd/patch.rebased.diff" || echo "$sd/patch.diff")" || { echo "patch does not apply"; exit 9; }
 cd /verif && ./vcheck "$prop" --no-evidence "$@"; rc=$?
 git -C /repo checkout -- . 
 echo "== seed $(basename $sd) on $prop: exit=$rc"
